@@ -4210,6 +4210,7 @@ def qr(a, mode='reduced', inner_labels=[None, None], cutoff=None, pos_diag_R=Fal
     a_labels = a._labels
     label_Q, label_R = inner_labels
     piped_axes, a = a.as_completely_blocked()  # ensure complete blocking & sort
+    res_dtype = np.result_type(np.float32, a.dtype)  # integer input: the factors are floating point
     q_data = []
     r_data = []
     i0 = 0
@@ -4236,8 +4237,8 @@ def qr(a, mode='reduced', inner_labels=[None, None], cutoff=None, pos_diag_R=Fal
                 #  assert K == q_block.shape[1]
                 q_block *= phase[np.newaxis, :]
                 r_block *= np.conj(phase)[:, np.newaxis]
-        q_data.append(q_block)
-        r_data.append(r_block)
+        q_data.append(q_block.astype(res_dtype, copy=False))
+        r_data.append(r_block.astype(res_dtype, copy=False))
         if mode != 'complete':
             q1, q2 = qindices
             i0 = a_leg0.slices[q1]
@@ -4258,11 +4259,11 @@ def qr(a, mode='reduced', inner_labels=[None, None], cutoff=None, pos_diag_R=Fal
         inner_leg.charges = a.chinfo.make_valid(-inner_leg.charges)
         inner_leg.sorted = False
         inner_leg.qconj = inner_qconj
-    q = Array([a_leg0, inner_leg.conj()], a.dtype, qtotal_Q)
+    q = Array([a_leg0, inner_leg.conj()], res_dtype, qtotal_Q)
     q._data = q_data
     q._qdata = a._qdata.copy()
     q._qdata_sorted = False
-    r = Array([inner_leg, a.legs[1]], a.dtype, a.chinfo.make_valid(a.qtotal - q.qtotal))
+    r = Array([inner_leg, a.legs[1]], res_dtype, a.chinfo.make_valid(a.qtotal - q.qtotal))
     r._data = r_data
     r._qdata = a._qdata.copy()
     r._qdata_sorted = False
@@ -4287,7 +4288,7 @@ def qr(a, mode='reduced', inner_labels=[None, None], cutoff=None, pos_diag_R=Fal
                     x += 1
                     continue
                 # else: don't have block for this qi yet in qdata, add identity
-                q_block = np.eye(a_leg0.slices[qi + 1] - a_leg0.slices[qi], dtype=a.dtype)
+                q_block = np.eye(a_leg0.slices[qi + 1] - a_leg0.slices[qi], dtype=res_dtype)
                 extra_q_qdata.append([qi, qi])
                 q_data.append(q_block)
             q._qdata = np.concatenate((q._qdata, extra_q_qdata), axis=0)
@@ -4363,6 +4364,7 @@ def orthogonal_columns(a, new_label=None):
         right_leg = LegCharge(a.chinfo, [0], np.zeros([0, a.chinfo.qnumber], dtype=QTYPE), a.legs[1].qconj)
         return Array([a.legs[0], right_leg], a.dtype, a.qtotal, [a_labels[0], new_label])
     piped_axes, a = a.as_completely_blocked()  # ensure complete blocking & sort
+    res_dtype = np.result_type(np.float32, a.dtype)  # integer input: the result is floating point
     left_leg = a.legs[0]
     left_block_sizes = left_leg.get_block_sizes()
     ortho_data = []
@@ -4374,7 +4376,7 @@ def orthogonal_columns(a, new_label=None):
         next_left_qi = a._qdata[b, 0]
         for left_qi in range(left_qi + 1, next_left_qi):  # yes, duplicated left_qi here
             # missing block in a, so add identity block in ortho
-            ortho_data.append(np.eye(left_block_sizes[left_qi], dtype=a.dtype))
+            ortho_data.append(np.eye(left_block_sizes[left_qi], dtype=res_dtype))
             ortho_qdata.append([left_qi, right_qi])
             right_kept_blocks.append(left_qi)
             right_qi += 1
@@ -4384,14 +4386,14 @@ def orthogonal_columns(a, new_label=None):
         if M > N:
             # find orthogonal columns of a_block
             q_block, r_block = np.linalg.qr(a_block, mode='complete')
-            ortho_data.append(q_block[:, N:])
+            ortho_data.append(q_block[:, N:].astype(res_dtype, copy=False))
             ortho_qdata.append([left_qi, right_qi])
             right_kept_blocks.append(left_qi)
             right_qi += 1
         # else: full rank a_block, so no orthogonal column for this block!
     for left_qi in range(left_qi + 1, left_leg.block_number):  # yes, duplicated left_qi here
         # final missing blocks in a, so add identity blocks in ortho
-        ortho_data.append(np.eye(left_block_sizes[left_qi], dtype=a.dtype))
+        ortho_data.append(np.eye(left_block_sizes[left_qi], dtype=res_dtype))
         ortho_qdata.append([left_qi, right_qi])
         right_kept_blocks.append(left_qi)
         right_qi += 1
@@ -4400,7 +4402,7 @@ def orthogonal_columns(a, new_label=None):
     right_qconj = a.legs[1].qconj
     right_charges = a.chinfo.make_valid(right_qconj * (a.qtotal - left_leg.get_charge(right_kept_blocks)))
     right_leg = LegCharge(a.chinfo, right_block_slices, right_charges, right_qconj)
-    ortho = Array([left_leg, right_leg], a.dtype, a.qtotal)
+    ortho = Array([left_leg, right_leg], res_dtype, a.qtotal)
     ortho._data = ortho_data
     ortho._qdata = np.array(ortho_qdata, dtype=np.intp, order='C')
     ortho._qdata_sorted = True
